@@ -49,10 +49,16 @@ func declMatrix() []declCase {
 	add("enum option info", "enum Status {\n  option ACTIVE {\n    info.color = \"red\"\n  }\n}\n")
 	add("enum info fields and option info", "enum Status {\n  info color {\n    label = \"Color\"\n  }\n  info shape {\n    label = \"Shape\"\n  }\n  option ACTIVE {\n    info.color = \"red\"\n    info.shape = \"round\"\n  }\n  option INACTIVE {\n    info.color = \"blue\"\n  }\n}\n")
 	add("object nested object", "object Foo {\n  field x string\n\n  object Bar {\n    field x string\n  }\n}\n")
+	add("README inline array example", "object Foo {\n  field bars array {\n    field barId key:id62\n  }\n}\n")
 	add("object inline named", "object Foo {\n  field bars array:object {\n    object.name = \"Bar\"\n    field barId key:id62\n  }\n}\n")
 	add("object inline depth 3", "object Foo {\n  field a object {\n    field b object {\n      field c oneof {\n        option d object {\n          field e enum {\n            option X\n          }\n        }\n      }\n    }\n  }\n}\n")
 	add("object anyMember", "object Foo {\n  anyMember = [\"foo\"]\n  field x string\n}\n")
 	add("object entity part", "object FooKeys {\n  entity.entity = \"Foo\"\n  entity.part = \"KEYS\"\n  field fooId key:id62\n}\n")
+	// parts of the schema the converter ignores (proofs/CmpbSchemaProofs.v ignored_by_converter): accepted all the same
+	add("key rules", "object Foo {\n  field k key:id62 {\n    rules {\n    }\n  }\n}\n")
+	add("string format", "object Foo {\n  field s string {\n    format = \"email\"\n  }\n}\n")
+	add("map ext and rules", "object Foo {\n  field m map:string {\n    ext.singleForm = \"pair\"\n    rules.minPairs = 1\n    rules.maxPairs = 3\n  }\n}\n")
+	add("decimal and date ext", "object Foo {\n  field d decimal {\n    ext {\n    }\n  }\n  field t date {\n    ext {\n    }\n  }\n}\n")
 	add("service", "service Foo {\n  basePath = \"/foo/v1\"\n  method Bar {\n    httpMethod = \"GET\"\n    httpPath = \"/bar/:id\"\n    request {\n      field id string\n    }\n    response {\n      field name string\n    }\n  }\n}\n")
 	for _, m := range []string{"GET", "POST", "PUT", "PATCH", "DELETE"} {
 		add("service method "+m, fmt.Sprintf("service Foo {\n  basePath = \"/foo/v1\"\n  method Bar {\n    httpMethod = %q\n    httpPath = \"/bar\"\n    request {\n    }\n    response {\n      field name string\n    }\n  }\n}\n", m))
